@@ -65,6 +65,8 @@ def _e2_plan(prop, tier):
             {"engine": "e2_history", "label": "hist-faults", "n": 100 if q else 10000, "kwargs": {"faults": True}, "timeout": 600.0},
             {"engine": "e2_history", "label": "hist-generated", "n": 80 if q else 5000, "kwargs": {"generated": True}, "timeout": 600.0},
             {"engine": "e2_history", "label": "blocks", "n": 28 if q else 280, "indexed": True, "kwargs": {"blocks": True}, "timeout": 900.0},
+            {"engine": "e2_history", "label": "two-trees", "n": 48 if q else 3000, "kwargs": {"trees": True}, "timeout": 600.0},
+            {"engine": "e2_history", "label": "disk", "n": 48 if q else 3000, "kwargs": {"disk": True}, "timeout": 600.0},
         ],
         "probes": ["parse.hits", "template.hits", "group.hits", "judged_op_hit_entry_touched_before", "fault.abort_fired", "op.LAZY_STEP"],
         "assumptions": [
@@ -278,6 +280,7 @@ def _c18_plan(prop, tier):
         "batches": [
             {"engine": "e3_pool", "label": "pool-imports", "n": 280 if q else 8000, "kwargs": {"profile": "imports", "schedules": 2}, "timeout": 900.0},
             {"engine": "e2_history", "label": "two-trees", "n": 96 if q else 6000, "kwargs": {"trees": True}, "timeout": 600.0},
+            {"engine": "e2_history", "label": "disk", "n": 48 if q else 3000, "kwargs": {"disk": True}, "timeout": 600.0},
         ],
         "probes": ["imports.clients_checked", "imports.clients_changed", "imports.import_statements_changed"],
         "assumptions": [
